@@ -56,7 +56,8 @@ RULE = ("cases = every batch shape (size, failing position incl. none) of the bo
         "a real LocomotiveSimulationVec + seeded inputs: larger batches with random unit parameters and failing positions, "
         "est-time construction / dispatch of 2-4 trains / speed-limit runs on the shipped simple corridor (four car types "
         "with non-round masses: HashMaps with 4 keys), set-speed runs, set-speed / speed-limit runs of Freight / Intermodal / "
-        "Passenger trains on corridors whose links carry per-train-type speed_sets maps (2-3 keys per link); every input executed twice in-process and once in a second process, every "
+        "Passenger trains on corridors whose links carry per-train-type speed_sets maps (2-3 keys per link), est-times + "
+        "dispatch of trains with 2-3 origin and 1-3 destination links (four in-process executions); every input executed twice in-process and once in a second process, every "
         "batch serially and 2-3 times under each rayon pool of 1, 2, 3, 8, 16 threads; distinct = distinct descriptors; "
         "non-trivial = whole-pipeline input or a batch of >= 2 elements")
 
